@@ -76,7 +76,7 @@ func c06ex(g *hgen, stacks []int, conds []int) Val {
 	case 2:
 		return vInt(r.Range(-3, 40))
 	case 3:
-		return vBool(r.Bool(0.5))
+		return []Val{vBool(r.Bool(0.5)), {K: "f", I: int64(r.Range(-9, 30))}, {K: "rune", I: int64(r.Range(65, 90))}}[r.Intn(3)]
 	case 4, 5:
 		return vRef(stacks[r.Intn(len(stacks))], r.Intn(nDress))
 	case 6:
